@@ -523,10 +523,72 @@ type resolvedSend struct {
 	method string
 	args   ssa.Value
 	pos    token.Pos
+	env    map[*ssa.Parameter]ssa.Value // parameters of the helpers on the way, bound to what the callers pass
+}
+
+// sliceElemsEnv: the static element types of an argument list that is a slice
+// literal, or is built from one by append (also of a variadic parameter bound in env).
+func sliceElemsEnv(v ssa.Value, env map[*ssa.Parameter]ssa.Value, depth int) ([]string, bool) {
+	if depth > 6 || v == nil {
+		return nil, false
+	}
+	for {
+		if mi, ok := v.(*ssa.MakeInterface); ok {
+			v = mi.X
+			continue
+		}
+		if ci, ok := v.(*ssa.ChangeInterface); ok {
+			v = ci.X
+			continue
+		}
+		break
+	}
+	if el, ok := sliceLiteralElems(v); ok {
+		return el, true
+	}
+	switch x := v.(type) {
+	case *ssa.Parameter:
+		if b, ok := env[x]; ok {
+			return sliceElemsEnv(b, env, depth+1)
+		}
+	case *ssa.MakeSlice:
+		if k, ok := constInt(x.Len); ok && k == 0 {
+			return []string{}, true
+		}
+	case *ssa.Const:
+		if x.IsNil() {
+			return []string{}, true
+		}
+	case *ssa.Call:
+		if bi, ok := x.Call.Value.(*ssa.Builtin); ok && bi.Name() == "append" && len(x.Call.Args) == 2 {
+			a, ok1 := sliceElemsEnv(x.Call.Args[0], env, depth+1)
+			b, ok2 := sliceElemsEnv(x.Call.Args[1], env, depth+1)
+			if ok1 && ok2 {
+				return append(append([]string{}, a...), b...), true
+			}
+		}
+	}
+	return nil, false
 }
 
 // resolveSendArgs follows (method, args) of an rpc2 call through parameters up the static callers.
-func resolveSendArgs(p *Program, fn *ssa.Function, method, args ssa.Value, pos token.Pos, depth int) []resolvedSend {
+func resolveSendArgs(p *Program, fn *ssa.Function, method, args ssa.Value, pos token.Pos, depth int, envs ...map[*ssa.Parameter]ssa.Value) []resolvedSend {
+	env := map[*ssa.Parameter]ssa.Value{}
+	if len(envs) > 0 && envs[0] != nil {
+		env = envs[0]
+	}
+	bind := func(cargs []ssa.Value) map[*ssa.Parameter]ssa.Value {
+		ne := map[*ssa.Parameter]ssa.Value{}
+		for k, v := range env {
+			ne[k] = v
+		}
+		for i, q := range fn.Params {
+			if i < len(cargs) {
+				ne[q] = cargs[i]
+			}
+		}
+		return ne
+	}
 	if depth > 4 {
 		return nil
 	}
@@ -538,7 +600,7 @@ func resolveSendArgs(p *Program, fn *ssa.Function, method, args ssa.Value, pos t
 		break
 	}
 	if s, ok := stringConstOf(method); ok {
-		return []resolvedSend{{fn, s, args, pos}}
+		return []resolvedSend{{fn, s, args, pos, env}}
 	}
 	// the method name looked up in a package-level table keyed by a parameter:
 	// resolve the key at every call site and read the table
@@ -584,7 +646,7 @@ func resolveSendArgs(p *Program, fn *ssa.Function, method, args ssa.Value, pos t
 				if ai >= 0 && ai < len(cargs) {
 					a = cargs[ai]
 				}
-				out = append(out, resolveSendArgs(p, s.caller, mc, a, s.instr.Pos(), depth+1)...)
+				out = append(out, resolveSendArgs(p, s.caller, mc, a, s.instr.Pos(), depth+1, bind(cargs))...)
 			}
 			return out
 		}
@@ -612,7 +674,7 @@ func resolveSendArgs(p *Program, fn *ssa.Function, method, args ssa.Value, pos t
 		if ai >= 0 && ai < len(cargs) {
 			a = cargs[ai]
 		}
-		out = append(out, resolveSendArgs(p, s.caller, cargs[mi], a, s.instr.Pos(), depth+1)...)
+		out = append(out, resolveSendArgs(p, s.caller, cargs[mi], a, s.instr.Pos(), depth+1, bind(cargs))...)
 	}
 	return out
 }
@@ -656,7 +718,7 @@ func serverSendsSSA(p *Program) map[*types.Func]*serverSend {
 						continue
 					}
 					s := &serverSend{fn: fobj, method: rs.method, pos: rs.pos, callSel: sc.Name(), arity: -1, usesGo: isGo}
-					if elems, ok := sliceLiteralElems(rs.args); ok {
+					if elems, ok := sliceElemsEnv(rs.args, rs.env, 0); ok {
 						s.arity = len(elems)
 						s.elems = elems
 					}
